@@ -78,6 +78,8 @@ PROPOSED_KNOWN = [
        root=_root(toctx="HTML", frag=END_SCRIPT_SP)),
     _k("lexer.scan ignores end tags: quotes in attributes of an end tag (`</x a='`) and `</script ` + attributes are text for it",
        root=_root(slot="end-tag")),
+    _k("lexer.scan ignores end tags (inside a double-quoted attribute value of an end tag)", root=_root(slot="end-tag-dq")),
+    _k("lexer.scan ignores end tags (inside a single-quoted attribute value of an end tag)", root=_root(slot="end-tag-sq")),
     _k("scanAttribute rejects a quote or `=` as first byte of an attribute name and skips it; the tokenizer starts an attribute there (`<a \"\"=v`)",
        root=_root(ctx="Tag", slot="attr-name", toctx="Tag", to="attr-unq")),
     _k("a value shown inside a JavaScript block comment is written as a quoted string that keeps `*/`",
